@@ -635,9 +635,15 @@ class Reaction(Object):
 
         # Make the genes aware that it is involved in this reaction
         for g in self._genes:
+            was_listed = self in g._reaction
             self._associate_gene(g)
             if context:
-                context(partial(self._dissociate_gene, g))
+                if g in old_genes:
+                    # the reaction keeps this gene: at most the back-reference is new
+                    if not was_listed:
+                        context(partial(g._reaction.discard, self))
+                else:
+                    context(partial(self._dissociate_gene, g))
 
         # make the old genes aware they are no longer involved in this reaction
         for g in old_genes.difference(new_genes):
